@@ -219,7 +219,7 @@ package kvql
 //@ define isNumTok(p *Parser, j Int) Bool = 0 <= j && j < len(p.toks) && p.toks[j].Tp == NUMBER
 //@ define isSepTok(p *Parser, j Int) Bool = 0 <= j && j < len(p.toks) && p.toks[j].Tp == SEP
 //@ define isEndTok(p *Parser, j Int) Bool = j >= len(p.toks) || (0 <= j && p.toks[j].Tp != NUMBER && p.toks[j].Tp != SEP)
-//@ define numOf(p *Parser, j Int) Int = ite(parseIntOk(val(p.toks[j].Data)), parseInt(val(p.toks[j].Data)), 0)
+//@ define tokNum(p *Parser, j Int) Int = ite(parseIntOk(val(p.toks[j].Data)), parseInt(val(p.toks[j].Data)), 0)
 //@ define limit1(p *Parser, b Int) Bool = isNumTok(p, b) && isEndTok(p, b + 1)
 //@ define limit2(p *Parser, b Int) Bool = isNumTok(p, b) && isSepTok(p, b + 1) && isNumTok(p, b + 2) && isEndTok(p, b + 3)
 //
@@ -227,8 +227,8 @@ package kvql
 //@   props C08
 //@   requires wfParser(p) && p.tok != nil && p.tok.Tp == LIMIT
 //@   assigns p.tok, p.pos
-//@   ensures[C08] one: limit1(p, old(p.pos)) ==> err == nil && ret != nil && ret.Start == 0 && ret.Count == numOf(p, old(p.pos))
-//@   ensures[C08] two: limit2(p, old(p.pos)) ==> err == nil && ret != nil && ret.Start == numOf(p, old(p.pos)) && ret.Count == numOf(p, old(p.pos) + 2)
+//@   ensures[C08] one: limit1(p, old(p.pos)) ==> err == nil && ret != nil && ret.Start == 0 && ret.Count == tokNum(p, old(p.pos))
+//@   ensures[C08] two: limit2(p, old(p.pos)) ==> err == nil && ret != nil && ret.Start == tokNum(p, old(p.pos)) && ret.Count == tokNum(p, old(p.pos) + 2)
 //@   ensures[C08] shape: err == nil ==> ret != nil && fresh(ret)
 //@   ensures wf: wfParser(p)
 //@   loop 0
@@ -236,9 +236,9 @@ package kvql
 //@     invariant brk: shouldBreak ==> p.tok != nil && p.tok.Tp != NUMBER && p.tok.Tp != SEP
 //@     invariant nn: forall q Int :: 0 <= q && q < len(exprs) ==> exprs[q] != nil && fresh(exprs[q])
 //@     invariant[C08] i1: curTok(p) == old(p.pos) ==> len(exprs) == 0
-//@     invariant[C08] i2: curTok(p) == old(p.pos) + 1 && isNumTok(p, old(p.pos)) ==> len(exprs) == 1 && exprs[0].Int == numOf(p, old(p.pos))
-//@     invariant[C08] i3: curTok(p) == old(p.pos) + 2 && isNumTok(p, old(p.pos)) && isSepTok(p, old(p.pos) + 1) ==> len(exprs) == 1 && exprs[0].Int == numOf(p, old(p.pos))
-//@     invariant[C08] i4: curTok(p) == old(p.pos) + 3 && isNumTok(p, old(p.pos)) && isSepTok(p, old(p.pos) + 1) && isNumTok(p, old(p.pos) + 2) ==> len(exprs) == 2 && exprs[0].Int == numOf(p, old(p.pos)) && exprs[1].Int == numOf(p, old(p.pos) + 2)
+//@     invariant[C08] i2: curTok(p) == old(p.pos) + 1 && isNumTok(p, old(p.pos)) ==> len(exprs) == 1 && exprs[0].Int == tokNum(p, old(p.pos))
+//@     invariant[C08] i3: curTok(p) == old(p.pos) + 2 && isNumTok(p, old(p.pos)) && isSepTok(p, old(p.pos) + 1) ==> len(exprs) == 1 && exprs[0].Int == tokNum(p, old(p.pos))
+//@     invariant[C08] i4: curTok(p) == old(p.pos) + 3 && isNumTok(p, old(p.pos)) && isSepTok(p, old(p.pos) + 1) && isNumTok(p, old(p.pos) + 2) ==> len(exprs) == 2 && exprs[0].Int == tokNum(p, old(p.pos)) && exprs[1].Int == tokNum(p, old(p.pos) + 2)
 //@     invariant[C08] j1: limit1(p, old(p.pos)) ==> curTok(p) <= old(p.pos) + 1
 //@     invariant[C08] j2: limit2(p, old(p.pos)) ==> curTok(p) <= old(p.pos) + 3
 //
